@@ -200,11 +200,15 @@ def main(prop, argv, seed):
     os.makedirs(work)
     n = 400 if thorough else 40
     from concurrent.futures import ThreadPoolExecutor
-    exes = {h: build.build_harness(h) for h, _ in SOURCES}
-    plain = {}
+    key = build.tree_hash()
+    build.build_lib("asan", key)
     if thorough:
-        for h, _ in SOURCES:
-            plain[h] = build.build_harness(h, "plain")
+        build.build_lib("plain", key)
+    with ThreadPoolExecutor(max_workers=8) as bex:
+        exes = dict(zip([h for h, _ in SOURCES], bex.map(lambda h: build.build_harness(h, "asan", key), [h for h, _ in SOURCES])))
+        plain = {}
+        if thorough:
+            plain = dict(zip([h for h, _ in SOURCES], bex.map(lambda h: build.build_harness(h, "plain", key), [h for h, _ in SOURCES])))
 
     results = {}
 
